@@ -386,6 +386,25 @@ def check_sbs_pairing(res, subhunks, regex, dist):
                 mi += 1
             if hasr:
                 pi += 1
+        # every line exactly once per side, in order (what the panels show, not only how many rows there are)
+        lt_seq = []
+        rt_seq = []
+        for info in grp[:-1]:
+            L, R, ok = sbs.parse_sbs_row(info.row, 400)
+            if L.kind == '-':
+                lt_seq.append(L.text().rstrip(' '))
+            if R.kind == '+':
+                rt_seq.append(R.text().rstrip(' '))
+            # a row without partner carries no emphasis
+            if (L.kind == '-') != (R.kind == '+' or (R.kind is None and info.row.fills and not R.code_cells)):
+                side = L if L.kind == '-' else R
+                if any(gen.TAG_BY_RGB.get(c_.bg) in ('minus_emph', 'plus_emph') for c_ in side.code_cells):
+                    outs.append(violated('c06:emph-on-unpaired-line:sbs', 'a line that shares its row with no partner carries emphasis', None, side.text(), sets=sets,
+                                         extra={'minus': ms, 'plus': ps, 'regex': regex, 'distance': dist}))
+        if all(t.strip() for t in ms + ps) and (lt_seq != [m.rstrip(' ') for m in ms] or rt_seq != [p_.rstrip(' ') for p_ in ps]):
+            outs.append(violated('c06:sbs-lines-not-once-in-order', 'side-by-side panels do not show every line of the sub-hunk once, in order',
+                                 (ms, ps), (lt_seq, rt_seq), sets=sets, extra={'minus': ms, 'plus': ps, 'regex': regex, 'distance': dist}))
+            continue
         if mi != len(ms) or pi != len(ps):
             outs.append(inconclusive('side-by-side rows could not be aligned with the sub-hunk'))
             continue
